@@ -47,6 +47,8 @@ struct WebSocketClientProbe
     cl._upgradeComplete.store(false);
     cl._state.store(ws::WebSocketState::CONNECTING);
   }
+  /// what the application would pass as Options::maxMessageSize to connect()
+  static void setMaxMessage(ws::WebSocketClient &cl, std::size_t n) { cl._options.maxMessageSize = n; }
   static void feed(ws::WebSocketClient &cl, const std::uint8_t *p, std::size_t n) { cl.handleData(0, p, n); }
   static std::size_t buffered(ws::WebSocketClient &cl)
   {
@@ -208,7 +210,7 @@ inline std::string inprocUpgradeResponse()
 /// feed `wire` cut at `cuts` to a fresh client. withUpgrade: the client is still waiting for the
 /// 101 response and `wire` starts with it (cuts are positions in the combined bytes), so the
 /// opening handshake is part of the segmentation.
-inline Outcome runClient(const std::string &wire, const std::vector<std::size_t> &cuts, bool withUpgrade = false)
+inline Outcome runClient(const std::string &wire, const std::vector<std::size_t> &cuts, bool withUpgrade = false, std::size_t maxMessage = 0)
 {
   quietLogs();
   Outcome o;
@@ -223,6 +225,7 @@ inline Outcome runClient(const std::string &wire, const std::vector<std::size_t>
                    o.closeReason = reason;
                  });
   cl->setOnError([&o](const std::string &) { ++o.errors; });
+  if (maxMessage) WebSocketClientProbe::setMaxMessage(*cl, maxMessage);
   if (withUpgrade) WebSocketClientProbe::primeAwaitingUpgrade(*cl, kInprocKey);
   else WebSocketClientProbe::prime(*cl);
   try
